@@ -24,7 +24,7 @@ RULE = ('every element (both isotope modes) and every tabulated isotope once (ex
 SHARDS = {'quick': 16, 'thorough': 16}
 MIN_NONTRIVIAL = {'quick': 1000, 'thorough': 30000}
 TIME_CAP = {'quick': 300, 'thorough': 3600}
-REQUIRED_CLASSES = ['single-element', 'single-isotope', 'natural', 'most-abundant', 'group', 'nesting>=3',
+REQUIRED_CLASSES = ['sum-then-add-on-result-or-operand', 'single-element', 'single-isotope', 'natural', 'most-abundant', 'group', 'nesting>=3',
                     'multiplied-group-followed-by-group', 'multiplied-group-followed-by-explicit-plus',
                     'two-capitals-in-a-row', 'count>=10', 'isotope-suffix', 'charge-suffix', 'isotope+charge-suffix',
                     'nucleon', 'deuterium-tritium', 'explicit-multiplication', 'implicit-multiplication',
@@ -374,11 +374,36 @@ def _run(case, ctx):
             for k, v in c2.items():
                 exp[k] = exp.get(k, 0) + v
             ids = dict(idents); ids.update(i2)
-            res = result(lambda: a + b, 'substance+substance')
+            box = {}
+
+            def make_sum():
+                box['c'] = a + b
+                return box['c']
+            res = result(make_sum, 'substance+substance')
             if res:
                 comps, rows, srow = res
                 compare(T, exp, ids, natural, comps, rows, srow, devs, mon, 'add:')
                 sample.update(right=R.render(g), expected_counts=exp, observed_counts=comps)
+            if res and not devs:
+                # the sum is a composite of its own: topping up one of its species (one that only the right operand brought,
+                # if there is one) leaves both operands as they were, and topping up the right operand leaves the sum alone
+                classes.add('sum-then-add-on-result-or-operand')
+                only_b = [k for k in c2 if k not in counts] or list(c2)
+                sp = only_b[len(text) % len(only_b)]
+                try:
+                    box['c'].add(sp, 2)
+                    exp2 = dict(exp); exp2[sp] = exp2[sp] + 2
+                    mon['sum_aliasing_rereads'] = mon.get('sum_aliasing_rereads', 0) + 3
+                    compare(T, exp2, ids, natural, *observe(box['c']), devs, mon, 'sum-after-add:')
+                    compare(T, counts, idents, natural, *observe(a), devs, mon, 'left-operand-after-add-on-the-sum:')
+                    compare(T, c2, i2, natural, *observe(b), devs, mon, 'right-operand-after-add-on-the-sum:')
+                    if not devs:
+                        b.add(sp, 3)
+                        c3 = dict(c2); c3[sp] = c3[sp] + 3
+                        compare(T, c3, i2, natural, *observe(b), devs, mon, 'right-operand-after-its-own-add:')
+                        compare(T, exp2, ids, natural, *observe(box['c']), devs, mon, 'sum-after-add-on-the-right-operand:')
+                except Exception as e:
+                    devs.append(dev('add-after-sum-raises:' + type(e).__name__, dict(exc=repr(e)[:300], formula=text, right=R.render(g), species=sp)))
         trivial = False
     elif t == 'addel':
         classes.add('substance+element')
